@@ -410,6 +410,9 @@ func (w *condWorld) genSecret(kind int, forceSigAll int) cSecret {
 		} else {
 			tags = append(tags, cTag{typ: 4, has: true, v: []int64{0, -5}[r.Intn(2)]})
 		}
+	case 6:
+		// "never": the largest timestamps there are (anything that converts them to another time scale must not wrap)
+		tags = append(tags, cTag{typ: 4, has: true, v: []int64{9223372036854775807, 9223372036854775806, 9223371974719179008, 9223371974719179007, 1 << 62, 253402300800}[r.Intn(6)]})
 	}
 	// refund
 	if r.Intn(3) == 0 {
